@@ -218,6 +218,10 @@ func ParseVpsSpsPpsFromSeqHeader(payload []byte) (vps, sps, pps []byte, err erro
 }
 
 func ParseVpsSpsPpsFromEnhancedSeqHeader(payload []byte) (vps, sps, pps []byte, err error) {
+	// 与 ParseVpsSpsPpsFromSeqHeaderWithoutMalloc 一致，长度不足一个HEVCDecoderConfigurationRecord的固定部分时直接返回错误
+	if len(payload) < 33 {
+		return nil, nil, nil, nazaerrors.Wrap(base.ErrHevc)
+	}
 	packetType := payload[0] & 0x0f
 
 	if packetType == 0 {
